@@ -800,7 +800,14 @@ prepare_for_output_pass(j_decompress_ptr cinfo)
         ERREXIT(cinfo, JERR_MODE_CHANGE);
       }
     }
-    (*cinfo->idct->start_pass) (cinfo);
+    /* In lossless mode, cinfo->idct is the lossless decompressor, whose
+     * start_pass() method resets input-side (undifferencing) state.  It is
+     * called by the difference buffer controller at the start of each input
+     * scan and must not be called when an output pass begins in the middle of
+     * a scan (buffered-image mode.)
+     */
+    if (!cinfo->master->lossless)
+      (*cinfo->idct->start_pass) (cinfo);
     (*cinfo->coef->start_output_pass) (cinfo);
     if (!cinfo->raw_data_out) {
       if (!master->using_merged_upsample)
